@@ -75,7 +75,30 @@ def run_selfcheck(tool, inputs):
     return p.stdout
 
 
+XRT_INPUTS = [
+    '<a xmlns:p="u" p:b="c"/>', '<r><p:a xmlns:p="u"/><p:b xmlns:p="u"/></r>', '<a xmlns="u"><b xmlns=""/></a>', '<a xmlns="u"><b xmlns=""><c/></b></a>',
+    '<a>x&#13;y</a>', '<a b="x&#13;y"/>', '<a b="x&#10;y&#9;z"/>', '<a xmlns="u" b="c"><c d="e"/></a>', '<a xml:lang="en"/>', '<p:a xmlns:p="u"><p:b xmlns:p="v"/></p:a>',
+    '<a>&lt;&amp;&gt;&quot;&apos;</a>', '<a b="&lt;&amp;&gt;&quot;&apos;"/>', "<a b='\"'/>", '<a><!-- x --><?pi d?></a>', '<a xmlns:p="u" xmlns:q="v" p:b="1" q:b="2"/>',
+    '<p:a xmlns:p="u" p:b="c"><p:c/><q:d xmlns:q="u"/></p:a>', '<a xmlns="u"><b xmlns="v"><c xmlns="u"/></b><d/></a>', '<a><b xmlns="u"/><c/></a>',
+    '<a xmlns:p="u"><b p:c="d"/><e p:f="g"/></a>', '<a>\\u{e9}\\u{4e2d}\\u{1f600}</a>', '<!DOCTYPE a><a/>', '<a>x]]&gt;y</a>',
+]
+
+
+def search_xrt():
+    tool, err = build_tool('xrt')
+    if tool is None:
+        return None
+    out = run_selfcheck(tool, XRT_INPUTS)
+    m = re.search(r'INCONSISTENT kind=(\S+) input=(".*?")\n((?:  .*\n?)+)', out)
+    if not m:
+        return None
+    return dict(tool='replay/src/bin/xrt.rs --selfcheck', kind=m.group(1), input=m.group(2), split_at=None,
+                observed=m.group(3).strip().split('\n'), raw=out.strip()[:4000])
+
+
 def search(prop, unit, rec):
+    if unit == 'u_xser':
+        return search_xrt()
     if unit not in ('u_htok', 'u_xtok'):
         return None
     bin_name = 'htok' if unit == 'u_htok' else 'xtok'
@@ -106,6 +129,8 @@ def fallback(prop, unit):
         if m:
             return dict(tool='replay/src/bin/bqcheck.rs', kind='bounded-model-mismatch', input=m.group(1), raw=p.stdout[-2000:]), bound
         return None, bound + ' :: ' + p.stdout.strip()[-200:]
+    if unit == 'u_xser':
+        return search_xrt(), 'XML round trip (parse, serialize, parse) over %d fixed documents' % len(XRT_INPUTS)
     if unit in ('u_htok', 'u_xtok'):
         conc = search(prop, unit, {})
         return conc, 'self-consistency sweep over %d short inputs x all 2-chunkings x exact_errors' % len(corpus(HTML_CONTEXTS if unit == 'u_htok' else XML_CONTEXTS))
@@ -128,7 +153,7 @@ XML_CONTEXTS = [
 
 
 def rerun(conc):
-    bin_name = 'xtok' if 'xtok' in conc.get('tool', '') else 'htok'
+    bin_name = 'xtok' if 'xtok' in conc.get('tool', '') else ('xrt' if 'xrt' in conc.get('tool', '') else 'htok')
     tool, err = build_tool(bin_name)
     if tool is None:
         print('cannot build the replay tool:', err)
